@@ -123,12 +123,18 @@ while done < N and attempts < 20 * N:
         block = bytes.fromhex("0001000100020008") + bytes.fromhex("0002000100020050") + bytes.fromhex("000300020004") + \
             rng.randrange(2**32).to_bytes(4, "big") + b"\x00\x00"
     block = block + bytes(rng.choice([0, 7, 4096 - len(block) if len(block) < 4096 else 0]))
-    mode = rng.choice(["default", "default", "custom", "all"])
+    mode = rng.choice(["default", "default", "custom", "all", "custom+all"])
     if mode == "default":
         key = rng.choice([0x69, 0x2e, 0x00]); keys = DEFAULT_KEYS; kw = {}
     elif mode == "custom":
         key = rng.randrange(256); keys = [bytes([rng.randrange(256)]) for _ in range(rng.randrange(0, 3))] + [bytes([key])]
         rng.shuffle(keys); kw = {"xor_keys": list(keys)}
+    elif mode == "custom+all":
+        # caller-supplied keys AND the all-keys retry: every key that was not tried first must be tried afterwards,
+        # in particular a default key the caller left out
+        keys = [bytes([rng.randrange(256)]) for _ in range(rng.randrange(1, 3))]
+        key = rng.choice([k for k in (0x69, 0x2e, 0x00, rng.randrange(256)) if bytes([k]) not in keys])
+        kw = {"xor_keys": list(keys), "all_xor_keys": True}
     else:
         key = rng.choice([k for k in range(256) if k not in (0x69, 0x2e, 0x00)]); keys = DEFAULT_KEYS; kw = {"all_xor_keys": True}
     B = rng.choice([7, 8, 64, 8192])
@@ -149,12 +155,12 @@ while done < N and attempts < 20 * N:
         pe = gens.mini_pe(machine=rng.choice([0x8664, 0x14c]), append=inner)
         data = pe if container == "pe" else gens.xorencode(pe, nonce=bytes(rng.randrange(1, 256) for _ in range(4)),
                                                             stub=rng.choice([b"", b"\xfc\xe8" + b"\x90" * 7 + b"\xff\xff\xff"]))
-    search_keys = keys if mode != "all" else keys + [bytes([key])]
+    search_keys = keys if mode not in ("all", "custom+all") else keys + [bytes([key])]
     want = ref_extract(data, search_keys)
     if want is None:
         continue
     # keep only cases whose expected answer is unambiguous for the all-keys mode (one candidate key besides the defaults)
-    if mode == "all":
+    if mode in ("all", "custom+all"):
         others = [k for k in range(256) if bytes([k]) not in search_keys and
                   (data.find(x1(HEADER, k)) >= 0 or (ref_xordecode(data) or b"").find(x1(HEADER, k)) >= 0)]
         if others:
